@@ -14,6 +14,11 @@ loads the composed document (real files, real packages) and the expansion
 objects must equal the specification's, and every text of the schema's
 vocabulary (all single lines, random texts up to 7 lines) must give the same
 outcome - value tree or rejection - against both.
+Finally the six composed worlds themselves are given to the loader
+specification (ZLoad, as in C01/C02): TLC feeds every text over each world's
+vocabulary up to the line bound and every behaviour is replayed on the
+composed schema (accept / reject and value tree) - the schema-language and the
+loader specification are thereby checked against the same real objects.
 """
 import copy
 import io
@@ -43,13 +48,19 @@ def worlds():
         N("sectiontype", {"name": "b1", "extends": "b0", "keytype": "identifier", "datatype": "zcv.dts.wrap"}, [
             N("key", {"name": "k1", "datatype": "integer", "default": "1"})]),
         N("sectiontype", {"name": "b2", "extends": "b1"}, [
-            N("multikey", {"name": "+", "attribute": "wm2", "datatype": "integer"},
-              [D("Alpha", "1"), D("beta", "2"), D("Alpha", "3")]),
+            N("multikey", {"name": "m2", "datatype": "boolean"}),
             N("section", {"type": "b0", "name": "inner"})]),
+        N("sectiontype", {"name": "c0"}, [
+            N("multikey", {"name": "+", "attribute": "wm2", "datatype": "integer"},
+              [D("Alpha", "1"), D("beta", "2"), D("Alpha", "3"), D("ALPHA", "4")])]),
+        N("sectiontype", {"name": "c1", "extends": "c0", "keytype": "identifier", "implements": "abs1"}, [
+            N("key", {"name": "Own"})]),
+        N("sectiontype", {"name": "c2", "extends": "c1", "keytype": "basic-key"}, []),
         N("sectiontype", {"name": "b3", "extends": "b2", "keytype": "basic-key", "implements": "abs1"}, [
             N("key", {"name": "k3", "handler": "h3"})]),
         N("multisection", {"type": "abs1", "name": "*", "attribute": "impls"}),
         N("multisection", {"type": "b2", "name": "+", "attribute": "twos"}),
+        N("multisection", {"type": "c2", "name": "+", "attribute": "cs"}),
         N("section", {"type": "b1", "name": "one"})])
     out.append(("main.xml", {"main.xml": main}, {}))
     # 2 prefixes: absolute at the schema, relative and absolute at section types, inherited datatypes resolved
@@ -78,7 +89,7 @@ def worlds():
         N("multikey", {"name": "base2", "datatype": "integer"}, [D(None, "5")])])
     b3 = N("schema", {"keytype": "identifier", "handler": "ignored"}, [
         N("sectiontype", {"name": "bt3", "implements": "babs"}, [])])
-    main = N("schema", {"extends": "b1.xml b2.xml b3.xml", "datatype": "null", "handler": "toph"}, [
+    main = N("schema", {"extends": "b3.xml b2.xml b1.xml", "datatype": "null", "handler": "toph"}, [
         N("sectiontype", {"name": "own", "extends": "bt1", "implements": "babs"}, [N("key", {"name": "k2"})]),
         N("multisection", {"type": "babs", "name": "*", "attribute": "impl"}),
         N("section", {"type": "deep", "name": "*", "attribute": "deep"}),
@@ -279,6 +290,43 @@ def tally_g(v):
     return "expansion compared" if v["exp"] else "accepted, expansion not defined (name not a fixed point)"
 
 
+def loader_pass(chk, quick):
+    """The composed worlds as schemas of the loader specification: the record read off the real composed schema
+    (which the pass above has just compared with the schema-language specification's) is handed to ZLoad, TLC
+    feeds every text over its vocabulary and every behaviour is replayed on the composed schema."""
+    import os
+    import shutil
+    import ZConfig
+    from .. import tlc
+    from . import c01
+    root = tlc.mkscratch("zcv-c11w-")
+    try:
+        world = sd.World()
+        c10.static_components(world)
+        docs = []
+        for wi, w in enumerate(worlds()):
+            main, files, comps = c10.rename_world(w, 9000 + wi)
+            for name, t in files.items():
+                world.add_file(name, t)
+            for (pkg, f), t in comps.items():
+                world.add_component(pkg, f, t)
+            docs.append((wi, main))
+        sd.materialise(world, root)
+        ext = []
+        for wi, main in docs:
+            path = os.path.join(root, main)
+            try:
+                sch = ZConfig.loadSchema(path)
+            except ZConfig.SchemaError as e:
+                from ..core import MachineryError
+                raise MachineryError("composed world %d is not a valid schema: %s" % (wi, e))
+            ext.append({"external": True, "path": path, "rec": rec_of(project.digest_schema(sch)),
+                        "xml": "<!-- composed world %d of C11: %s -->" % (wi, main)})
+        c01.explore(chk, ext, cap=(18 if quick else 26), maxlines=(3 if quick else 4), tree=True)
+    finally:
+        shutil.rmtree(root, ignore_errors=True)
+
+
 def run(chk):
     quick = chk.tier == "quick"
     items = scenarios(chk.seed, quick)
@@ -293,6 +341,7 @@ def run(chk):
                 "every vocabulary line and random texts of 2..7 lines compared; non-trivial = a document to be judged")
     c10.run_batches(chk, items, 800, ["AcceptIffWellFormed", "ExpansionSameSchema", "StacksBalanced", "Emit"],
                     exp=True, replay=replay_g, tally=tally_g)
+    loader_pass(chk, quick)
     chk.exhaustive = not quick
     chk.note("documents", len(items))
     chk.note("texts_per_accepted_document", "vocabulary (<= 40 lines) + %d random" % N_RANDOM["n"])
